@@ -104,7 +104,9 @@ PROPS = {
                     "InflAgrees equates the specification's infl with the model's readAll on the observed inflate script (the independent inflate is "
                     "the Go twin's, compared through tinfl=/exp= on every case); 'fails the connection' = Parse returns an error or the handler closed "
                     "the conn: the engine's close-on-Parse-error is harness glue; c13_partial/c13_masked assume ReadLimit = 0 (the read-limit test is "
-                    "about segments); the upgrade hand-off lines (H) are computed by Model/WsUp.upParse: c13_partial_handoff (through c12's "
+                    "about segments); ReadLimit > 0 is c13_readlimit (Lemmas/WsReadLimit.lean: feed_readLimit): the run is that of the endpoint "
+                    "without a read limit, cut at the first Parse call refused by the read-limit test with ErrTooLong — the verdict and events on "
+                    "the segments before that call are the RFC predicate's, the call adds none; the upgrade hand-off lines (H) are computed by Model/WsUp.upParse: c13_partial_handoff (through c12's "
                     "upFeed_handoff) carries the theorem behind a hand-off; M/T/Q/P/Z lines of the shared stream are computed by modules outside "
                     "C13's closure (over-comparison)",
             "technique": "Lean 4 proof (decoder agreement + induction over the frame list, decide over regenerated tables) + differential correspondence"},
